@@ -22,11 +22,14 @@ Proof.
   replace (k * cp - k * x) with (k * (cp - x)) by ring.
   destruct (Rlt_dec 0 (k * (cp - x))) as [H|H]; destruct (Rlt_dec 0 (cp - x)) as [H'|H'].
   - rewrite ppow_mult by lra.
-    replace (4 / 3 * (E * Rpower k (- (3 / 2))) / (1 - nu ^ 2) * sqrt R *
-             (Rpower k (3 / 2) * ppow (cp - x) (3 / 2)))
-      with (4 / 3 * E / (1 - nu ^ 2) * sqrt R * ppow (cp - x) (3 / 2)
-            * (Rpower k (- (3 / 2)) * Rpower k (3 / 2))) by (unfold Rdiv; ring).
-    rewrite Rpower_cancel by exact Hk. ring.
+    (* however the prefactor is grouped in the source: an identity of the field R in the
+       atoms (the inverse of 1 - nu^2, sqrt R, the power of the depth), with
+       k^(-3/2) = 1 / k^(3/2) *)
+    rewrite Rpower_Ropp.
+    assert (Hb : Rpower k (3 / 2) <> 0) by (unfold Rpower; apply Rgt_not_eq, exp_pos).
+    set (b := Rpower k (3 / 2)) in *.
+    unfold Rdiv. generalize (/ (1 - nu ^ 2)) (sqrt R) (ppow (cp - x) (3 / 2)). intros t s P.
+    field. exact Hb.
   - exfalso. apply H'. apply (mask_scale k); assumption.
   - exfalso. apply H. apply (mask_scale k); assumption.
   - ring.
@@ -38,14 +41,9 @@ Proof.
   intros Hk. unfold m_hertz_cone. cbv zeta.
   replace (k * cp - k * x) with (k * (cp - x)) by ring.
   destruct (Rlt_dec 0 (k * (cp - x))) as [H|H]; destruct (Rlt_dec 0 (cp - x)) as [H'|H'].
-  - unfold Rdiv. replace (/ (k ^ 2)) with (/ k * / k) by (field; lra).
-    replace ((k * (cp - x)) ^ 2) with (k * k * (cp - x) ^ 2) by ring.
-    assert (Hkk : / k * k = 1) by (field; lra).
-    replace (2 * tan (alpha * PI * / 180) * / PI * (E * (/ k * / k)) * / (1 - nu ^ 2) *
-             (k * k * (cp - x) ^ 2))
-      with (2 * tan (alpha * PI * / 180) * / PI * E * / (1 - nu ^ 2) * (cp - x) ^ 2
-            * ((/ k * k) * (/ k * k))) by ring.
-    rewrite Hkk. ring.
+  - unfold Rdiv.
+    generalize (/ (1 - nu ^ 2)) (tan (alpha * PI * / 180)). intros t T.
+    field. split; [apply Rgt_not_eq, PI_RGT_0 | lra] || lra.
   - exfalso. apply H'. apply (mask_scale k); assumption.
   - exfalso. apply H. apply (mask_scale k); assumption.
   - ring.
@@ -57,14 +55,9 @@ Proof.
   intros Hk. unfold m_hertz_pyr3s. cbv zeta.
   replace (k * cp - k * x) with (k * (cp - x)) by ring.
   destruct (Rlt_dec 0 (k * (cp - x))) as [H|H]; destruct (Rlt_dec 0 (cp - x)) as [H'|H'].
-  - unfold Rdiv. replace (/ (k ^ 2)) with (/ k * / k) by (field; lra).
-    replace ((k * (cp - x)) ^ 2) with (k * k * (cp - x) ^ 2) by ring.
-    assert (Hkk : / k * k = 1) by (field; lra).
-    replace (8887 * / 10000 * tan (alpha * PI * / 180) * (E * (/ k * / k)) * / (1 - nu ^ 2) *
-             (k * k * (cp - x) ^ 2))
-      with (8887 * / 10000 * tan (alpha * PI * / 180) * E * / (1 - nu ^ 2) * (cp - x) ^ 2
-            * ((/ k * k) * (/ k * k))) by ring.
-    rewrite Hkk. ring.
+  - unfold Rdiv.
+    generalize (/ (1 - nu ^ 2)) (tan (alpha * PI * / 180)). intros t T.
+    field. split; [apply Rgt_not_eq, PI_RGT_0 | lra] || lra.
   - exfalso. apply H'. apply (mask_scale k); assumption.
   - exfalso. apply H. apply (mask_scale k); assumption.
   - ring.
@@ -135,6 +128,14 @@ Proof.
   set (xi := ppow _ (3 / 2)). unfold Rdiv. ring.
 Qed.
 
+
+(* sign of a prefactor built from non-negative atoms, however it is grouped *)
+Ltac prefactor_nonneg :=
+  unfold Rdiv;
+  repeat (apply Rmult_le_pos);
+  first [ lra | apply sqrt_pos | assumption
+        | left; apply Rinv_0_lt_compat; first [assumption | apply PI_RGT_0 | lra] ].
+
 (* ---- C13: monotone in depth, continuous at contact (power laws) --------------------- *)
 Lemma tan_deg_nonneg alpha : 0 <= alpha < 90 -> 0 <= tan (alpha * PI / 180).
 Proof.
@@ -156,10 +157,7 @@ Lemma monotone_para E R nu cp bl d1 d2 :
   m_hertz_para E R nu cp bl d1 <= m_hertz_para E R nu cp bl d2.
 Proof.
   intros HE Hn Hd. unfold m_hertz_para. cbv zeta.
-  assert (Haa : 0 <= 4 / 3 * E / (1 - nu ^ 2) * sqrt R).
-  { apply Rmult_le_pos; [|apply sqrt_pos]. unfold Rdiv. apply Rmult_le_pos; [lra|].
-    left. apply Rinv_0_lt_compat. exact Hn. }
-  apply Rplus_le_compat_r. apply Rmult_le_compat_l; [exact Haa|].
+  apply Rplus_le_compat_r. apply Rmult_le_compat_l; [prefactor_nonneg|].
   destruct (Rlt_dec 0 (cp - d1)); destruct (Rlt_dec 0 (cp - d2)); try lra.
   - apply ppow_mono; lra.
   - apply ppow_nonneg.
@@ -171,13 +169,8 @@ Lemma monotone_cone E alpha nu cp bl d1 d2 :
 Proof.
   intros HE Hn Ha Hd. unfold m_hertz_cone. cbv zeta.
   assert (Ht := tan_deg_nonneg alpha Ha). assert (HP : 0 < PI) by apply PI_RGT_0.
-  set (T := tan (alpha * PI / 180)) in *.
-  assert (Haa : 0 <= 2 * T / PI * E / (1 - nu ^ 2)).
-  { unfold Rdiv.
-    apply Rmult_le_pos; [|left; apply Rinv_0_lt_compat; exact Hn].
-    apply Rmult_le_pos; [|exact HE].
-    apply Rmult_le_pos; [lra | left; apply Rinv_0_lt_compat; exact HP]. }
-  apply Rplus_le_compat_r. apply Rmult_le_compat_l; [exact Haa|].
+  set (T := tan (alpha * PI / 180)) in *. clearbody T.
+  apply Rplus_le_compat_r. apply Rmult_le_compat_l; [prefactor_nonneg|].
   destruct (Rlt_dec 0 (cp - d1)); destruct (Rlt_dec 0 (cp - d2)); try lra.
   - apply sq_mono. lra.
   - apply pow2_ge_0.
@@ -189,12 +182,8 @@ Lemma monotone_pyr E alpha nu cp bl d1 d2 :
 Proof.
   intros HE Hn Ha Hd. unfold m_hertz_pyr3s. cbv zeta.
   assert (Ht := tan_deg_nonneg alpha Ha).
-  set (T := tan (alpha * PI / 180)) in *.
-  assert (Haa : 0 <= 8887 / 10000 * T * E / (1 - nu ^ 2)).
-  { unfold Rdiv.
-    apply Rmult_le_pos; [|left; apply Rinv_0_lt_compat; exact Hn].
-    apply Rmult_le_pos; [|exact HE]. lra. }
-  apply Rplus_le_compat_r. apply Rmult_le_compat_l; [exact Haa|].
+  set (T := tan (alpha * PI / 180)) in *. clearbody T.
+  apply Rplus_le_compat_r. apply Rmult_le_compat_l; [prefactor_nonneg|].
   destruct (Rlt_dec 0 (cp - d1)); destruct (Rlt_dec 0 (cp - d2)); try lra.
   - apply sq_mono. lra.
   - apply pow2_ge_0.
@@ -218,13 +207,15 @@ Lemma contact_para E R nu cp bl delta :
   <= Rabs (4 / 3 * E / (1 - nu ^ 2) * sqrt R) * (cp - delta).
 Proof.
   intros Hd. unfold m_hertz_para. cbv zeta.
-  set (aa := 4 / 3 * E / (1 - nu ^ 2) * sqrt R).
+  (* the prefactor of the source, however grouped, equals the stated one *)
   destruct (Rlt_dec 0 (cp - delta)).
-  - replace (aa * ppow (cp - delta) (3 / 2) + bl - bl) with (aa * ppow (cp - delta) (3 / 2)) by ring.
+  - match goal with |- Rabs (?a * ?X + bl - bl) <= Rabs ?b * _ =>
+      replace (a * X + bl - bl) with (b * X) by (unfold Rdiv; ring) end.
     rewrite Rabs_mult. apply Rmult_le_compat_l; [apply Rabs_pos|].
     rewrite Rabs_right by (apply Rle_ge; apply ppow_nonneg). apply ppow32_le. lra.
-  - replace (aa * 0 + bl - bl) with 0 by ring. rewrite Rabs_R0.
-    apply Rmult_le_pos; [apply Rabs_pos | lra].
+  - match goal with |- Rabs (?a * 0 + bl - bl) <= _ =>
+      replace (a * 0 + bl - bl) with 0 by ring end.
+    rewrite Rabs_R0. apply Rmult_le_pos; [apply Rabs_pos | lra].
 Qed.
 
 Lemma sq_le_self r : 0 <= r <= 1 -> r ^ 2 <= r.
@@ -239,13 +230,15 @@ Lemma contact_cone E alpha nu cp bl delta :
   <= Rabs (2 * tan (alpha * PI / 180) / PI * E / (1 - nu ^ 2)) * (cp - delta).
 Proof.
   intros Hd. unfold m_hertz_cone. cbv zeta.
-  set (aa := 2 * tan (alpha * PI / 180) / PI * E / (1 - nu ^ 2)).
+  (* the prefactor of the source, however grouped, equals the stated one *)
   destruct (Rlt_dec 0 (cp - delta)).
-  - replace (aa * (cp - delta) ^ 2 + bl - bl) with (aa * (cp - delta) ^ 2) by ring.
+  - match goal with |- Rabs (?a * ?X + bl - bl) <= Rabs ?b * _ =>
+      replace (a * X + bl - bl) with (b * X) by (unfold Rdiv; ring) end.
     rewrite Rabs_mult. apply Rmult_le_compat_l; [apply Rabs_pos|].
     rewrite Rabs_right by (apply Rle_ge; apply pow2_ge_0). apply sq_le_self. lra.
-  - replace (aa * 0 + bl - bl) with 0 by ring. rewrite Rabs_R0.
-    apply Rmult_le_pos; [apply Rabs_pos | lra].
+  - match goal with |- Rabs (?a * 0 + bl - bl) <= _ =>
+      replace (a * 0 + bl - bl) with 0 by ring end.
+    rewrite Rabs_R0. apply Rmult_le_pos; [apply Rabs_pos | lra].
 Qed.
 
 Lemma contact_pyr E alpha nu cp bl delta :
@@ -254,11 +247,13 @@ Lemma contact_pyr E alpha nu cp bl delta :
   <= Rabs (8887 / 10000 * tan (alpha * PI / 180) * E / (1 - nu ^ 2)) * (cp - delta).
 Proof.
   intros Hd. unfold m_hertz_pyr3s. cbv zeta.
-  set (aa := 8887 / 10000 * tan (alpha * PI / 180) * E / (1 - nu ^ 2)).
+  (* the prefactor of the source, however grouped, equals the stated one *)
   destruct (Rlt_dec 0 (cp - delta)).
-  - replace (aa * (cp - delta) ^ 2 + bl - bl) with (aa * (cp - delta) ^ 2) by ring.
+  - match goal with |- Rabs (?a * ?X + bl - bl) <= Rabs ?b * _ =>
+      replace (a * X + bl - bl) with (b * X) by (unfold Rdiv; ring) end.
     rewrite Rabs_mult. apply Rmult_le_compat_l; [apply Rabs_pos|].
     rewrite Rabs_right by (apply Rle_ge; apply pow2_ge_0). apply sq_le_self. lra.
-  - replace (aa * 0 + bl - bl) with 0 by ring. rewrite Rabs_R0.
-    apply Rmult_le_pos; [apply Rabs_pos | lra].
+  - match goal with |- Rabs (?a * 0 + bl - bl) <= _ =>
+      replace (a * 0 + bl - bl) with 0 by ring end.
+    rewrite Rabs_R0. apply Rmult_le_pos; [apply Rabs_pos | lra].
 Qed.
